@@ -8,20 +8,24 @@ R_QUICK = ["cases.tl"]
 R_THOROUGH = ["cases.tl", "goldmaster.tl", "goldmaster2.tl", "goldmaster3.tl", "schema.tl", "cpp.tl"]
 
 
-def run_gen(prop, tier, regex, props=None, optsets=("full",), params_q=None, params_t=None, level="model_checking", f_pattern="*",
-            r_quick=(), r_thorough=(), wall_q="12s", wall_t="300s", bounds=None, outside=None, assumptions=(), only=None, max_models_q=6, max_models_t=30,
-            max_paths_q=1500, max_paths_t=60000, hgen_extra=(), ladder=None, prim=None):
+def run_gen(prop, tier, regex, regex_q=None, props=None, optsets=("full",), params_q=None, params_t=None, level="model_checking", f_pattern="*",
+            r_quick=(), r_thorough=(), wall_q="8s", wall_t="300s", bounds=None, outside=None, assumptions=(), only=None, max_models_q=6, max_models_t=30,
+            max_paths_q=1200, max_paths_t=60000, hgen_extra=(), ladder=None, prim=None):
     c = GenCheck(prop, tier, level)
+    if tier == "quick" and regex_q:
+        regex = regex_q
     params = dict(params_q or {}) if tier == "quick" else dict(params_t or params_q or {})
     f_pattern = os.environ.get("VERIF_F_PATTERN") or f_pattern  # development aid: restrict the feature corpus
     corpus = corpus_f(f_pattern) + corpus_r(list(r_quick) if tier == "quick" else list(r_thorough))
-    for key, schemas in corpus:
+    for idx, (key, schemas) in enumerate(corpus):
         for on in optsets:
             if schemas[0].endswith(".tl2") and on == "default":
                 continue
             skip = None if key == "f01" else PRELUDE
             c.run_schema(key, schemas, on, props or [prop], regex, params=params, skip=skip, only=only, hgen_extra=hgen_extra, ladder=ladder or (),
-                         wall=wall_q if tier == "quick" else wall_t, max_models=max_models_q if tier == "quick" else max_models_t,
+                         wall=wall_q if tier == "quick" else wall_t,
+                         # quick: passing-path models are replayed natively for a rotating third of the corpus (violations are always replayed)
+                         max_models=(max_models_q if (idx + c.seed) % 3 == 0 else 0) if tier == "quick" else max_models_t,
                          max_paths=max_paths_q if tier == "quick" else max_paths_t)
     if prim:
         # primitive-level obligations of pkg/basictl this property relies on, decided for ALL lengths (shared with C33)
@@ -60,7 +64,7 @@ SPEC = {
 
 J_Q = {"D": 1, "L": 2, "S": 1, "B": 1, "pool": 1}
 J_T = {"D": 2, "L": 2, "S": 2, "B": 2, "pool": 4, "extrabit": 1}
-SPEC["C09"] = dict(hgen_extra=["-jmode"], params_q=dict(BYTES_Q, slack=4, slack1=0, **J_Q), params_t=dict(BYTES_T, slack=8, slack1=4, **J_T),
+SPEC["C09"] = dict(regex_q="^VerifC09(f|ft2|j|reset)_", hgen_extra=["-jmode"], params_q=dict(BYTES_Q, slack=4, slack1=0, **J_Q), params_t=dict(BYTES_T, slack=8, slack1=4, **J_T),
                    ladder=[{"slack": 0, "slack1": 0}], bounds=dict(BYTES_BOUNDS, **VAL_BOUNDS),
                    outside=OUT_COMMON + ["JSON text that the generated writer does not produce, as the second decode"], r_thorough=R_QUICK,
                    assumptions=["dirty objects: (a) whatever a first decode of arbitrary bytes leaves behind (success or failure), (b) one fully populated value per type (every optional part present), (c) an arbitrary value followed by Reset"])
